@@ -7,8 +7,10 @@ Model of the address <-> source lookups of BugStalker
   The sort is unstable, so the model takes the stored order as input (hook `verif_dump_units`).
 * `binarySearch` is `core::slice::binary_search_by` of the pinned toolchain (1.89): the size-halving
   loop without early exit; among equal keys it returns the LAST one.
-* Everything is total; the one Rust panic that is reachable (`p -= 1` on `usize` 0 in
-  `find_exact_place_by_pc`, only with overflow checks on) is the explicit outcome `Res.panic`.
+* Everything is total.  The one Rust panic that WAS reachable (`p -= 1` on `usize` 0 in
+  `find_exact_place_by_pc`, with overflow checks on) has been repaired in the repository (`fix:` commit, see
+  known_findings.txt); the model mirrors the repaired loop (`while p > 0 && ..`).  The outcome type `Res` and the
+  `oc` parameter are kept so that a reintroduced panic shows up as a correspondence mismatch.
 
 No Mathlib: this file is linked into `bsmodel`.
 -/
@@ -121,7 +123,7 @@ def exactBack (rows : Array Row) (pc : Nat) (oc : Bool) : Nat → Nat × Row →
   | 0, best =>
     match rows[0]? with
     | some r =>
-      if r.addr = pc then (if oc then .panic else .ok (some (0, r)))   -- `p -= 1` at 0: panic, or wrap to usize::MAX (no row there)
+      if r.addr = pc then .ok (some (0, r))   -- index 0 reached: the loop stops (`while p > 0 && ..`, repaired by the `fix:` commit)
       else .ok (some best)
     | none => .ok (some best)
   | p' + 1, best =>
@@ -137,7 +139,7 @@ def findExactPlaceByPc (rows : Array Row) (pc : Nat) (oc : Bool) : Res (Option (
     | none => .ok none        -- unreachable: a found index is in range
     | some r =>
       match p with
-      | 0 => if oc then .panic else .ok (some (0, r))       -- `p -= 1`
+      | 0 => .ok (some (0, r))       -- `while p > 0`: nothing before index 0
       | p' + 1 => exactBack rows pc oc p' (p' + 1, r)
   | .notFound _ => .ok none
 
